@@ -62,6 +62,27 @@ def tree_of(text):
             tuple(_sorted_plain(A.to_plain(A.merge(l))) for l in dv.layers))
 
 
+def set_view_at(sv, path):
+    for seg in path:
+        nxt = None
+        for b in sv.bindings:
+            if b.kind == "bind" and b.path == (seg,) and b.sub is not None:
+                nxt = b.sub
+                break
+        if nxt is None:
+            return None
+        sv = nxt
+    return sv
+
+
+def comment_only(text, sv) -> str:
+    """Does the set the binding goes into hold no binding but a comment?"""
+    if sv is None or sv.bindings:
+        return "no"
+    body = text.encode("utf-8")[sv.node.start_byte:sv.node.end_byte]
+    return "yes" if (b"#" in body or b"/*" in body) else "no"
+
+
 def plan(tier, seed):
     n_shards = 16 if tier == "quick" else 64
     docs = 220 if tier == "quick" else 2000
@@ -94,6 +115,10 @@ def run_shard(spec):
 
     for di in range(spec["docs"]):
         text0, doc, canonical = B.make_document(rng, canonical_only=True)
+        if rng.random() < 0.02:
+            # a document whose set holds nothing but a comment
+            text0 = rng.choice(["{\n  # todo\n}\n", "{ pkgs }:\n{\n  # nothing yet\n}\n",
+                                "let\n  v = 1;\nin\n{\n  /* empty */\n}\n"])
         wal(f"doc {spec['seed']}:{di}")
         # optional prefix history
         text = text0
@@ -170,6 +195,7 @@ def run_shard(spec):
                             witness("restore", {"effect": "set-then-rm-did-not-restore-text", "wrappers": wl,
                                                 "scoped": str(scoped), "layers": str(min(len(dv.layers), 3)),
                                                 "inline_target": str(inline_target),
+                                                "parent_comment_only": comment_only(text, dv.target),
                                                 "tree_restored": str(tree_of(back) == tree_of(text)),
                                                 "diff_kind": ("final-newline-only" if back + "\n" == text
                                                               else "other")},
@@ -191,6 +217,7 @@ def run_shard(spec):
                         witness("restore", {"effect": "set-then-rm-did-not-restore-text", "wrappers": wl,
                                             "scoped": "False", "layers": str(min(len(dv.layers), 3)),
                                             "nested": "yes", "multiline_value": "yes" if "\n" in val else "no",
+                                            "parent_comment_only": comment_only(text, set_view_at(dv.target, base_p)),
                                             "tree_restored": str(tree_of(back) == tree_of(text)),
                                             "diff_kind": ("final-newline-only" if back + "\n" == text else "other")},
                                 {**base_case, "ops": [["set", sp, val], ["rm", sp, ""]]}, f"BACK={back!r}")
